@@ -313,17 +313,6 @@ theorem timing_section_roundtrip (R : Render) (c : Chart)
       = .ok (quantize R.uni c).bpms :=
   readTiming_writeTiming R c.bpms c.svs hb hs
 
-/-- the sample events `write` emits, selected by their `Sample` prefix and read back, are the quantized samples -/
-theorem samples_section_roundtrip (R : Render) (ss : List Sample) (hf : ∀ s ∈ ss, ',' ∉ s.file) :
-    mapE readSample (((ss.map writeSample).map R.line).filter (startsWith pSample)) = .ok (ss.map qSample) := by
-  induction ss with
-  | nil => rfl
-  | cons s t ih =>
-    have r := readSample_writeSample R s (hf s (by simp))
-    have hp : startsWith pSample (R.line (writeSample s)) = true := by
-      rw [line_writeSample]; simp [startsWith, pSample, joinWith]
-    simp only [List.map_cons, List.filter_cons, hp, if_true, mapE, r, ih (fun s' hs' => hf s' (by simp [hs']))]
-
 /-! ## the whole text -/
 
 /-- the header lines as the reader sees them -/
